@@ -75,8 +75,11 @@ check("C16", "other",
       "The merge functions themselves, with fully symbolic layers: per-key and per-environment-variable precedence of "
       "with_defaults_from / with_overrides_from, associativity (three layers), empty layer is the identity, append/prepend "
       "accumulate in order, DocumentConfig scalars and nested defaults. All presence/value assignments of the scalar keys; "
-      "environments of <= 2/3 variables per layer. The 4-layer statement follows from these laws; where the layers are applied "
-      "(parser, CLI, executor) is not claimed.",
+      "environments of <= 2/3 variables per layer. The 4-layer statement follows from these laws plus where the layers are applied: "
+      "what commands::test::Args::run hands the executor = command-line flags over the test case's inline configuration and "
+      "--timeout-seconds over the document's total_timeout (bin crate MIR, every inline configuration × flag combination, replayed through "
+      "the real binary), and what StatefulExecutor::execute_all hands the runner = test case over the document's defaults (every key and "
+      "variable, both layers fully symbolic). The parser's format defaults are not claimed here.",
       E2_NOTE, E2_TECH, "E2", "DESIGN.md §3 C16")
 
 check("C05", "other",
@@ -113,6 +116,8 @@ check("C13", "other",
       "its call depth does not grow with the number of pairs; BashRunner::run hands the expression to the shell verbatim for "
       "expressions containing any template placeholder token in symbolic context; iterate_divided_output attributes to each test "
       "exactly its bytes and exit code (payloads with/without final newline, look-alike divider lines with a foreign salt stay output). "
+      "compile_script of the single-script (Cram) executor puts every expression verbatim on its own line, in order, and its divider echo is a "
+      "command of its own — no backslash continuation into it (1–2 symbolic expressions, replayed through the real executor and bash). "
       "Pipes, merge order of stdout/stderr, megabyte payloads and real exit codes of processes are not claimed.",
       E2_NOTE, E2_TECH, "E2", "DESIGN.md §3 C13")
 
@@ -127,7 +132,8 @@ check("C08", "other",
       E2_TECH, "E2", "DESIGN.md §3 C08")
 
 check("C09", "other",
-      "Partial: for one-line outputs. On the MIR of Outcome::generate_testcase (real escaper) composed with LineParser, "
+      "Partial: for one-line outputs, plus 2–3-line outputs in the `update` path (diff mixing still-matching and new lines, with/without final "
+      "newline: one matching quantifier-free expectation per line). On the MIR of Outcome::generate_testcase (real escaper) composed with LineParser, "
       "ExpectationMaker::parse and the parsed rule's matches(): the text written for an output line parses back to the same command, "
       "no exit code and one quantifier-free expectation that matches that line — for lines u ++ S (|u| <= 2/3 symbolic over 8 symbols, "
       "S from 12 syntax-lookalike suffixes), with/without final newline, both escapers, Markdown and Cram line-parser modes; plus "
